@@ -122,8 +122,28 @@ def kernel_level(r, quick):
     return len(lines), dis, keys
 
 
+def dtype_boundaries(r, quick):
+    """index arithmetic at the edges of the small integer types: a dimension of 127 … 300 elements (the candidate grids of the surrogate
+    optimizers are built with the narrowest integer dtype that holds `max_dim`), alone or beside a short dimension"""
+    out = []
+    names = list(gen.SMBO) + ["DirectAlgorithm", "GridSearchOptimizer", "PatternSearch", "ParticleSwarmOptimizer", "HillClimbingOptimizer"]
+    for name in names:
+        for size in ([200] if quick else [127, 128, 129, 200, 254, 255, 256, 300]):
+            for second in ([None] if quick else [None, 7]):
+                space = {"x0": [float(i) * 0.5 - 3 for i in range(size)]}
+                if second:
+                    space["x1"] = list(range(second))
+                sp = dict(opt=name, space=space, initialize={"random": 3, "vertices": 1}, opt_kwargs={}, seed=r.randrange(100000),
+                          objective=gen.gen_objective(r, space, kinds=("lin", "peak")), constraint=None, durs=[0],
+                          calls=[dict(n_iter=12 if name in gen.SMBO else 30, memory="on", verbosity=False)])
+                if r.random() < 0.4:
+                    sp["constraint"] = gen.gen_constraint(r, space, kinds=("half", "parity"))
+                out.append(sp)
+    return out
+
+
 def backend_runs(r, quick):
-    specs = bkgen.all_optimizer_scenarios(r, C.T(6, 40), constraint_p=0.45)
+    specs = bkgen.all_optimizer_scenarios(r, C.T(6, 40), constraint_p=0.45) + dtype_boundaries(r, quick)
     fails, keys, samples, n_nan = [], set(), [], 0
     kdis, klines, kexp = [], [], []
     for spec in specs:
